@@ -93,12 +93,20 @@ struct SeqRun {
     void do_push() {
         int v = VT == 2 ? 0 : next_value++;
         int push_idx = -1;
+        // odd values are pushed from a variable of the caller (an lvalue): the queue takes a copy, the variable stays intact
+        if constexpr (VT != 2) if (v & 1) {
+            typename QT<VT>::T x = QT<VT>::mk(v);
+            if constexpr (BOUNDED) { push_idx = (int)pushes.size(); pushes.emplace_back(new PushF(q->push(x))); } else q->push(x);
+            HZ_CHECK(QT<VT>::dec(x) == v, "push(lvalue) changed the caller's variable: it reads %d after pushing %d (moved from instead of copied)", QT<VT>::dec(x), v);
+            goto pushed;
+        }
         if constexpr (BOUNDED) {
             push_idx = (int)pushes.size();
             pushes.emplace_back(new PushF(q->push(QT<VT>::mk(v))));
         } else {
             if constexpr (VT == 2) q->push(); else q->push(QT<VT>::mk(v));
         }
+        pushed:
         // model
         if (!waiting.empty()) { model_deliver(v); if (BOUNDED) push_expect.push_back(0); }
         else if (!BOUNDED || items.size() < limit) { items.push_back(v); if (BOUNDED) push_expect.push_back(0); }
